@@ -14,6 +14,7 @@ import (
 	"math/big"
 	"regexp"
 	"sort"
+	"strconv"
 	"strings"
 
 	"github.com/thushan/olla/verifharness/ev"
@@ -61,8 +62,11 @@ func numDiff(want, got json.Number) string {
 	if intLit.MatchString(string(want)) {
 		n, _ := new(big.Int).SetString(string(want), 10)
 		if new(big.Int).Abs(n).Cmp(two53) > 0 {
-			f, _ := new(big.Float).SetInt(n).Float64()
-			if fr := new(big.Rat); fr.SetFloat64(f) != nil && fr.Cmp(g) == 0 {
+			// the upstream literal is some decimal rendering of the double nearest to want
+			// (Go prints the shortest one: 2^63-1 arrives as 9223372036854776000)
+			wf, err1 := strconv.ParseFloat(string(want), 64)
+			gf, err2 := strconv.ParseFloat(string(got), 64)
+			if err1 == nil && err2 == nil && wf == gf {
 				return "bigint-rounded"
 			}
 		}
